@@ -6,6 +6,17 @@
         <answer> ::= ok <ty> <bits> | trap | fuel | stuck <why>
     c01 op <binop> <ty> <bits> <bits>        →  <answer>      (one operator on two operands)
     c01 un <neg|not> <ty> <bits>             →  <answer>
+    c01 t5 <hex sexp> <arg>… [| <arg>… ]…    →  outside | <answer> [| <answer>]…
+        the composed model of T5 (`Props/C01Lower`): the program resolved to the lowering model's
+        core language (`C01Resolve.resolve`), lowered by `LowerS.lowerProg`, and the structured MIR
+        of `main` executed by `C01MirRun.runMain` (operators = generated table composition).
+        `outside`: the program is not in the common fragment.  <answer> ::= ok <ty> <bits> | none
+    c01 t5mir <hex sexp>                     →  outside | <fn 0> || <fn 1> || …   (as `c08 mir`)
+        the structured MIR of every function of the resolved program, laid out as a CFG
+    c01 lir <hex text>                       →  the LIR lowering model on real MIR (see Driver/C01Lir.lean)
+    c01 lirrun <hex text> <arg>… [| <arg>…]… →  outside | m=<answer> l=<answer> [| …]
+        the semantics of Props/C01Lir on the compiler's real MIR: `main` of the MIR program run by
+        `C01Lir.mRun`, and the LIR the model makes of it run by `C01Lir.lRun`, on every tuple
     c01 dce <cfg>                            →  ok <cfg> | panic | fuel
         the Lean model of `mir/dead_code.rs` (`RotoV.Dce.dce`) on a CFG skeleton:
         <cfg> ::= <block>;<block>;…     <block> ::= <label>:<ins>,<ins>,…
@@ -26,9 +37,14 @@ import Driver.Util
 import RotoV.Model.Spec
 import RotoV.Model.NativeFloat
 import RotoV.Model.Dce
+import RotoV.Model.C01Resolve
+import RotoV.Model.C01MirRun
+import Driver.C08
+import Driver.C01Lir
 
 namespace Driver.C01
-open RotoV RotoV.Spec
+open RotoV hiding Ty BinOp
+open RotoV.Spec
 
 instance : FloatOps := nativeFloatOps
 
@@ -228,9 +244,75 @@ def handleDce (text : String) : String :=
     | .panic => "panic"
     | .fuel => "fuel"
 
+/-! ### `c01 t5`: the composed model (resolve → lowerS → table-based MIR execution) -/
+
+def showTVal : TraceSpec.Val → String
+  | .int v => s!"i32 {ITy.i32.toBits v}"
+  | .bool b => s!"bool {if b then 1 else 0}"
+  | .unit => "unit 0"
+  | _ => "other 0"
+
+def handleT5 (fns : List FnDef) (tuples : List (List String)) : String :=
+  match C01Resolve.resolve fns with
+  | none => "outside"
+  | some fnsT =>
+    match LowerS.lowerProg fnsT with
+    | none => "nolower"
+    | some P =>
+      let answers := tuples.map fun tup =>
+        match tup.mapM parseArg with
+        | none => "bad-arg"
+        | some vs =>
+          match C01Resolve.encArgs vs with
+          | none => "bad-arg"
+          | some vs' =>
+            match C01MirRun.runMain fnsT P FUEL vs' with
+            | some w => "ok " ++ showTVal w
+            | none => "none"
+      " | ".intercalate answers
+
+/-! ### `c01 lirrun`: the MIR / LIR semantics of the LIR layer on real MIR -/
+
+def handleLirRun (hexText : String) (tuples : List (List String)) : String :=
+  match unhex hexText with
+  | none => "bad-hex"
+  | some bytes =>
+    match String.fromUTF8? (ByteArray.mk bytes.toArray) with
+    | none => "bad-utf8"
+    | some text =>
+      let P := Driver.C01Lir.parseProg text
+      match C01Lir.lowerProg P with
+      | none => "outside"
+      | some L =>
+        let answers := tuples.map fun tup =>
+          match tup.mapM parseArg with
+          | none => "bad-arg"
+          | some vs =>
+            match C01Resolve.encArgs vs with
+            | none => "bad-arg"
+            | some vs' =>
+              let show1 := fun (r : Option TraceSpec.Val) => match r with
+                | some w => "ok_" ++ (showTVal w).replace " " "_"
+                | none => "none"
+              s!"m={show1 (C01Lir.mRun P 4000 "main" vs')} l={show1 (C01Lir.lRun L 4000 "main" vs')}"
+        " | ".intercalate answers
+
 def handle (args : List String) : String :=
   match args with
   | ["dce", text] => handleDce text
+  | "lirrun" :: hex :: rest => handleLirRun hex (splitTuples rest)
+  | "t5" :: hex :: rest =>
+    match parseProg hex with
+    | none => "bad-program"
+    | some fns => handleT5 fns (splitTuples rest)
+  | ["lir", hex] => Driver.C01Lir.handle hex
+  | ["t5mir", hex] =>
+    match parseProg hex with
+    | none => "bad-program"
+    | some fns =>
+      match C01Resolve.resolve fns with
+      | none => "outside"
+      | some fnsT => " || ".intercalate (fnsT.map Driver.C08.showMir)
   | "run" :: hex :: rest =>
     match parseProg hex with
     | none => "bad-program"
